@@ -8,13 +8,13 @@ ENGINE_A = "stateless exhaustive schedule exploration (DFS over environment deci
 
 CHECKS = {
  "C09": dict(cat="model_checking", engine="C", technique=ENGINE_C,
-   text="All reachable quiescent states of a Lock shared by 3 (thorough: 4) commanded tasks are enumerated to closure; every transition (single event or every in-cycle placement of a second event: acquire/acquire_nowait/release/AnyIO cancel/native cancel/acquire in an already-cancelled scope) is executed on the real Lock and explained by a FIFO-lock reference automaton; public statistics compared at every quiescent point.",
+   text="All reachable quiescent states of a Lock shared by 3 (thorough: 4) commanded tasks are enumerated to closure; every transition (single event, every in-cycle placement of a second event, and every placement of two cancellations racing with the first event: acquire/acquire_nowait/release/AnyIO cancel/native cancel/acquire in an already-cancelled scope) is executed on the real Lock (also one created outside the event loop, i.e. the lazy adapter) and explained by a FIFO-lock reference automaton; public statistics compared at every quiescent point.",
    note="Trusted: VLoop reproduces asyncio.BaseEventLoop batching; cancellations arrive as loop callbacks; uvloop not explored (C scheduler)."),
  "C10": dict(cat="model_checking", engine="C", technique=ENGINE_C,
-   text="All reachable quiescent states of a Semaphore (initial/max/fast_acquire variants) and a CapacityLimiter (with a foreign borrower and total_tokens assignments 0/1/2/inf) shared by 3 commanded tasks, to closure; every transition and every in-cycle event pair is executed on the real object and explained by a counting/FIFO reference automaton; value/borrowed/available/statistics compared at every quiescent point.",
+   text="All reachable quiescent states of a Semaphore (initial/max/fast_acquire variants) and a CapacityLimiter (with a foreign borrower and total_tokens assignments 0/1/2/inf) shared by 3 commanded tasks, to closure, plus the same primitives created outside the event loop (lazy adapters); every transition and every in-cycle event pair is executed on the real object and explained by a counting/FIFO reference automaton; value/borrowed/available/statistics compared at every quiescent point.",
    note="Trusted: VLoop batching model; one in-flight acquire_on_behalf_of per foreign borrower; extra releases of an unbounded semaphore capped at initial+2."),
  "C11": dict(cat="model_checking", engine="C", technique=ENGINE_C,
-   text="All reachable quiescent states of an Event and of a Condition (3 tasks; acquire/release/wait/notify(n)/notify_all with and without the lock, cancellations incl. in the notifying cycle) with every in-cycle event pair; transitions explained by a FIFO lock + FIFO wait-queue automaton with explicit pass-the-notification-on rule.",
+   text="All reachable quiescent states of an Event and of a Condition (3 tasks; acquire/release/wait/notify(n) for n in 0..2 (thorough 0..3)/notify_all with and without the lock, an Event created outside the loop, cancellations incl. in the notifying cycle) with every in-cycle event pair; transitions explained by a FIFO lock + FIFO wait-queue automaton with explicit pass-the-notification-on rule.",
    note="Trusted: VLoop batching model. A native Task.cancel() landing during the shielded re-acquire at the end of wait() legitimately loses the lock/notification (asyncio limitation) and is accepted by the oracle."),
  "C12": dict(cat="model_checking", engine="C", technique=ENGINE_C,
    text="Reachable quiescent states of a real memory object stream (buffer sizes 0/1; thorough 2/inf and clones) driven by 2 sender and 2 receiver tasks with fresh items, depth-bounded BFS plus all in-cycle event pairs (send/receive/_nowait, entered cancelled, AnyIO cancel); a FIFO-channel reference automaton (powerset simulation) must explain every return value, so each accepted item is delivered exactly once, in order, the buffer bound holds and cancelled receives consume nothing.",
@@ -23,10 +23,10 @@ CHECKS = {
    text="Same engine and automaton as C12 with clone()/close() on up to 2+2 handles (also closing handles that have blocked peers or blocked users): EndOfStream / BrokenResourceError / ClosedResourceError must be exactly those the reference predicts, closing the last clone must wake every blocked peer, open-stream counts must match.",
    note="Trusted: VLoop batching model; depth-capped BFS (cap reported)."),
  "C20": dict(cat="model_checking", engine="C", technique=ENGINE_C + "; plus bounded-exhaustive differential enumeration of sequential call histories against functools.lru_cache",
-   text="Reachable quiescent states of the real lru_cache wrapper (maxsize None/1/2, ttl, 2-3 keys, up to 3 callers with invocations held in flight by gates) under call / complete / fail / cancel / clock events and all in-cycle event pairs; oracle: right value, single flight, no foreign exception, no stale or expired hit, nobody blocked without an equal-key invocation in flight, currsize and probed retention <= maxsize; and every sequential call sequence up to length 5-7 over 2-4 keys (typed on/off, failing key) must hit/miss exactly like functools.lru_cache.",
+   text="Reachable quiescent states of the real lru_cache wrapper (maxsize None/1/2, ttl with and without always_checkpoint, 2-3 keys, up to 3 callers with invocations held in flight by gates) under call / complete / fail / cancel / clock events and all in-cycle event pairs; oracle: right value, single flight, no foreign exception, no stale or expired hit, nobody blocked without an equal-key invocation in flight, currsize and probed retention <= maxsize; and every sequential call sequence up to length 5-7 over 2-4 keys (typed on/off, failing key, arguments passed positionally and by keyword) must hit/miss exactly like functools.lru_cache.",
    note="Trusted: VLoop batching model; functools.lru_cache as sequential reference (mixed int/float keys only compared with typed=True because of a CPython fast-path quirk); BFS depth-capped where stated."),
  "C01": dict(cat="exploration", engine="A", technique=ENGINE_A,
-   text="~1300 generated task-tree programs (children from a 12-behaviour menu, nested groups, children spawning children, spawn after cancel / from behind a shield / from an outside callback) x every placement of the environment actions (set gate, cancel group / enclosing scope / task handle, external start_soon) at every scheduling point x {stock, eager} x hash salts; oracle on the event log: every member has ended before the block ends and never runs afterwards, handle status/value/exception equal the recorded outcome.",
+   text="~1300 generated task-tree programs (children from a 12-behaviour menu, nested groups, children spawning children, spawn after cancel / from behind a shield / from an outside callback; host cancelled natively several times while a child is in shielded cleanup) x every placement of the environment actions (set gate, cancel group / enclosing scope / task handle, external start_soon) at every scheduling point x {stock, eager} x hash salts; oracle on the event log: every member has ended before the block ends and never runs afterwards, handle status/value/exception equal the recorded outcome.",
    note="Trusted: VLoop batching model (stock + eager factory); uvloop not explored; programs are bounded (<= 3 children, nesting 2)."),
  "C02": dict(cat="exploration", engine="A", technique=ENGINE_A,
    text="Task-tree programs in which body/children raise (Exception and BaseException subclasses; before, during, after cancellation; from cleanup), nested groups, start()-children failing while unwinding after their starter was cancelled; all placements of environment actions; oracle: flattened leaves of the raised group == multiset of non-cancellation exceptions that ended body and members, no cancellation leaves, nothing raised when nothing failed, remaining members interrupted at their checkpoints.",
@@ -35,31 +35,31 @@ CHECKS = {
    text="~1000 generated scope-tree and task-tree programs (3 nested scopes x all shield assignments, blocked / runnable / catch-and-block-again / shielded-cleanup bodies, cancel by the task itself, siblings, environment; shields toggled under a cancelled ancestor; scope cancelled before entry; tasks spawned into cancelled groups) x every placement of cancel()/set() callbacks; oracle: independent effective-cancellation relation on the log - checkpoints begun in a cancelled scope raise, blocked waits are interrupted within 5 loop iterations unless their gate was set first; deadlock and livelock detection by the virtual loop.",
    note="Trusted: VLoop batching model (stock + eager); liveness judged as bounded latency (<=5 iterations) + idle/horizon detection; uvloop not explored."),
  "C04": dict(cat="exploration", engine="A", technique=ENGINE_A,
-   text="Scope-tree family plus native-cancel / ordinary-exception crossings; reference semantics evaluated on the log: a cancellation is received only where a cancelled scope is visible without crossing a shield, and at every scope exit absorb <=> own cancel and no visible cancelled encloser, cancelled_caught <=> absorbed, everything else passes through (also inside exception groups).",
+   text="Scope-tree family plus native-cancel / ordinary-exception crossings; reference semantics evaluated on the log: a cancellation is received only where a cancelled scope is visible without crossing a shield, and at every scope exit absorb <=> own cancel and no visible cancelled encloser, cancelled_caught <=> absorbed, everything else passes through (also inside exception groups). Plus (engine B, preemption-bounded) to_thread.run_sync calls inside a shielded scope below the cancelled one: neither the call nor from_thread.check_cancelled() in its worker may see that cancellation.",
    note="Trusted: VLoop batching model; cancel instants of library-internal cancels (failing child) are modelled as a window and exits falling into the window accept both outcomes."),
  "C05": dict(cat="exploration", engine="A", technique=ENGINE_A,
    text="Scope-tree family plus residue programs (1-3 re-deliveries, cancellation handled by the body, nested hand-over of the uncancel count, asyncio.timeout around/inside/after scopes, asyncio.TaskGroup afterwards, deadlines left early / re-armed); oracle: Task.cancelling() at exit == at entry when no encloser is cancelled, later awaits undisturbed, native constructs fire iff their own deadline passed, loop idle within 8 iterations and no live timer after the program.",
    note="Trusted: VLoop batching model and virtual clock; per-program execution cap 20000 in quick tier (capped programs are reported, exhaustive=false)."),
  "C07": dict(cat="exploration", engine="A", technique=ENGINE_A,
-   text="168 start() programs (14 child behaviours x caller in body / sibling, each in its own scope, catching or not x cancel caller / group / none) x every placement of the environment actions; oracle from the order of started(), child end and start() return in the log (value only after started(), child's own exception otherwise without cancelling the group, child ended before a cancelled start() re-raises, later errors surface, second started() refused) plus the C02 leaf oracle.",
+   text="180 start() programs (15 child behaviours x caller in body / sibling, each in its own scope, catching or not x cancel caller / group / none) x every placement of the environment actions; oracle from the order of started(), child end and start() return in the log (value only after started(), child's own exception otherwise without cancelling the group, child ended before a cancelled start() re-raises, later errors surface, second started() refused - but never once the caller's wait has been cancelled) plus the C02 leaf oracle.",
    note="Trusted: VLoop batching model."),
  "C06": dict(cat="exploration", engine="A", technique=ENGINE_A + " on a virtual clock, discrete-event reference evaluated at observed event times",
-   text="~5900 (thorough ~60000) single-task programs: all assignments of deadlines {past,0,1,2,4,inf}, sleep durations, scope kinds (CancelScope/move_on_after/fail_after), inner shield and deadline re-assignments for two (three) nested scopes; every choice of letting the clock reach the next timer while the loop is busy; oracle: must/may-fired reference for every sleep/checkpoint outcome, cancel_called and cancelled_caught at exit, TimeoutError of fail_after, current_effective_deadline() probes, no firing after exit, no live timer at the end.",
+   text="~5900 (thorough ~60000) single-task programs: all assignments of deadlines {past,0,1,2,4,inf}, sleep durations, scope kinds (CancelScope/move_on_after/fail_after), inner shield (also switched on only after entry, under an already cancelled encloser) and deadline re-assignments for two (three) nested scopes; every choice of letting the clock reach the next timer while the loop is busy; oracle: must/may-fired reference for every sleep/checkpoint outcome, cancel_called and cancelled_caught at exit, TimeoutError of fail_after, current_effective_deadline() probes, no firing after exit, no live timer at the end.",
    note="Trusted: virtual clock model (time moves only at idle or at explorer-chosen batch boundaries); deadline == wake-up ties accepted either way."),
  "C16": dict(cat="model_checking", engine="C", technique="explicit-state BFS to closure over (buffer, remaining source chunks) states of the real BufferedByteReceiveStream rebuilt through its public API, relational reference oracle on every transition; bounded-exhaustive enumeration for the text streams",
-   text="Initial states: every byte string over {a,b} up to length 5 (thorough 7) under every chunking, for a byte stream honouring max_bytes and an object stream of bytes; transitions receive(n), receive_exactly(n), receive_until(delim,max), feed_data(x) for small n/delimiters/max, BFS to closure, each transition executed on a fresh real object and checked against the relation on buffer+source (prefix, 1..n bytes, exactly n or IncompleteRead, delimiter rules, failed calls consume nothing); path-independence of op sequences on one live object; text: all strings of <=3-4 code points over {a, e-acute, euro, emoji} x 5 encodings x every split (short encodings) / every 2- and 3-way split (long ones), and TextSendStream->TextReceiveStream identity for every cut of the string.",
+   text="Initial states: every byte string over {a,b} up to length 5 (thorough 7) under every chunking, for a byte stream honouring max_bytes and an object stream of bytes; transitions receive(n), receive_exactly(n), receive_until(delim,max), feed_data(x), and receive(n) with feed_data(x) arriving while it waits inside the wrapped stream, for small n/delimiters/max, BFS to closure, each transition executed on a fresh real object and checked against the relation on buffer+source (prefix, 1..n bytes, exactly n or IncompleteRead, delimiter rules, failed calls consume nothing); path-independence of op sequences on one live object; text: all strings of <=3-4 code points over {a, e-acute, euro, emoji} x 5 encodings x every split (short encodings) / every 2- and 3-way split (long ones), and TextSendStream->TextReceiveStream identity for every cut of the string, also when one of the later transport sends fails.",
    note="Trusted: the in-memory source streams written for the check (never suspend, never deliver empty chunks); random longer inputs are not sampled (different family)."),
  "C08": dict(cat="exploration", engine="D", technique="exhaustive enumeration of the finite operation x no-wait-state x cancellation-config x loop matrix; each cell is one deterministic scripted run of the real code (virtual loop stock/eager, real asyncio stock/eager, uvloop)",
    text="Every cell of (operation that can complete without waiting) x {open, cancelled by self, cancelled ancestor, cancelled ancestor behind a shield, shielded-and-cancelled scope} x 5 loop configurations: cancelled => raises the cancellation and the primitive's public state is unchanged (Condition.wait keeps the lock, thread function not started); otherwise a callback queued just before the call has run when it returns (fast_acquire exempt) and the effect is visible; all itertools functions over empty/singleton/longer sync sources and empty async sources.",
    note="Trusted: each cell has a single schedule (no waiting involved); reduce() cells are limited to inputs for which the user callback is not invoked; blocking states belong to C03."),
  "C19": dict(cat="exploration", engine="D", technique="bounded-exhaustive differential enumeration against CPython's itertools/functools; tee() consumers by stateless exhaustive schedule exploration on the virtual loop",
-   text="All 20 itertools functions and reduce: every element sequence over {0,1,2} up to length 3 (thorough 4) as list and as async iterable x every parameter from {-1,0,1,2,3,5,None} (including invalid ones) x fixed callback menus; result list or exception class must equal the stdlib's. tee(): 2-3 consumers x 1-3 elements with consumers and the async source released by gates placed at every scheduling point: every consumer sees the whole sequence, the source is pulled once per element.",
+   text="All 20 itertools functions and reduce: every element sequence over {0,1,2} up to length 3 (thorough 4) as list and as async iterable x every parameter from {-1,0,1,2,3,5,None} (including invalid ones) x fixed callback menus; result list or exception class must equal the stdlib's. tee(): 2-3 consumers x 1-3 elements with consumers and the async source released by gates placed at every scheduling point: every consumer sees the whole sequence - also a consumer whose __anext__() is cancelled once or twice at any point and which then carries on - and the source is pulled once per element.",
    note="Trusted: CPython 3.12 itertools/functools as reference (batched(strict=) and list-valued groupby against 6-line references); random longer inputs not sampled."),
  "C17": dict(cat="fault_enumeration", engine="E", technique="exhaustive enumeration (ordered by number of deviations, capped per scenario) of the modelled transport's answers - chunk sizes per delivery and one truncation point at record-relative offsets - around real TLSStream/OpenSSL endpoints on the virtual loop",
-   text="Real TLSStream.wrap on both ends (real OpenSSL, TLS 1.2 and 1.3, standard_compatible on/off, message sizes 0..40000 in both directions at once, receive sizes 1/7/65536) over an in-memory pipe with fixed chunk policies {all,1,2,7} plus explorer-chosen short deliveries and one truncation inside any TLS record (handshake, data, close_notify); oracle: plaintext complete and in order without faults, chunk size 1..max_bytes, EndOfStream after a clean close, a truncated transport is never reported as clean EndOfStream when standard_compatible.",
+   text="Real TLSStream.wrap on both ends (real OpenSSL, TLS 1.2 and 1.3, standard_compatible on/off, message sizes 0..40000 in both directions at once and 70000-140000 from an otherwise idle sender, receive sizes 1/7/65536) over an in-memory pipe with fixed chunk policies {all,1,2,7} plus explorer-chosen short deliveries and one truncation inside any TLS record (handshake, data, close_notify); oracle: plaintext complete and in order without faults, chunk size 1..max_bytes, EndOfStream after a clean close, a truncated transport is never reported as clean EndOfStream when standard_compatible - not on the first receive() after the cut and not on the next one.",
    note="Trusted: the in-memory pipe model (mc/envmodels.py MemPipe); OpenSSL is real. Quick tier caps each scenario at 250 executions in order of increasing deviation count (cap and completed deviation level are in the evidence)."),
  "C18": dict(cat="fault_enumeration", engine="E", technique="exhaustive enumeration (deviation-bounded, capped per scenario) of environment events and answers of modelled endpoints - asyncio transport pair with kernel buffer / pause-resume, non-blocking socket pair with partial send/recv and readiness callbacks - around the real SocketStream / UNIXSocketStream code",
-   text="anyio's SocketStream(StreamProtocol) over a modelled asyncio transport pair (4-byte kernel buffer, write-buffer limit 0 => pause/resume_writing, data_received chunking, eof_received, connection_lost) and UNIXSocketStream over modelled non-blocking sockets (3-byte pipe, partial send, short recv, BlockingIOError, add_reader/add_writer readiness): message sizes 1..9 (> buffers), max_bytes 1/2/65536, slow reader, full duplex, send_eof/close, two tasks on one direction, use after local close; every order of enabled environment events at idle plus up to 2 (thorough 3) non-default answers per execution; oracle: received == sent, chunk size, EndOfStream / ClosedResourceError / BusyResourceError, no deadlock.",
+   text="anyio's SocketStream(StreamProtocol) over a modelled asyncio transport pair (4-byte kernel buffer, write-buffer limit 0 => pause/resume_writing, data_received chunking, eof_received, connection_lost) and UNIXSocketStream over modelled non-blocking sockets (3-byte pipe, partial send, short recv, BlockingIOError, add_reader/add_writer readiness): message sizes 1..9 (> buffers), max_bytes 1/2/65536, slow reader, full duplex, send_eof/close, a second task entering the same direction at any explorer-chosen moment, use after local close also with received data left over; every order of enabled environment events at idle plus up to 2 (thorough 3) non-default answers per execution; oracle: received == sent, chunk size, EndOfStream / ClosedResourceError / BusyResourceError, no deadlock.",
    note="Trusted: the endpoint models in mc/envmodels.py (the real kernel and uvloop are not explored; no real-socket conformance run is included)."),
  "C14": dict(cat="exploration", engine="B", technique="stateless preemption-bounded exploration of real OS threads under a baton scheduler (switch points at synchronisation operations) combined with the virtual loop's environment-action placement",
    text="1-2 (thorough 3) concurrent to_thread.run_sync calls x limiter total 1/2 (explicit and default limiter) x abandon_on_cancel x function behaviours (return, raise, wait on a gate, read a contextvar, poll from_thread.check_cancelled also behind a shielded-and-cancelled scope, call back via from_thread.run_sync / run) x gate releases and caller cancellation at every loop scheduling point x all thread schedules with <=1 (thorough 2) preemptions; oracle: result/exception identity, contextvar, running functions <= total and <= borrowed tokens, no token left, cancellation semantics per abandon_on_cancel, check_cancelled raises, no deadlock.",
